@@ -1,2 +1,5 @@
 import Mp.EscProofs
 /-! C09 — print/parse round trip: property theorems. -/
+#print axioms Esc.literal_roundtrip
+#print axioms Esc.seq_eq_sim
+#print axioms Esc.unescape_order_independent
